@@ -42,6 +42,7 @@ pub struct World {
   pub max_ready: usize,
   pub steps: usize,
   pub started: Instant,
+  pub timer_ties_fifo: bool,
 }
 
 #[derive(Clone, Debug, PartialEq, Eq, Hash)]
@@ -93,6 +94,7 @@ impl World {
       max_ready: 0,
       steps: 0,
       started: base,
+      timer_ties_fifo: false,
     }
   }
 
@@ -231,7 +233,9 @@ impl World {
     let p = vtime::pending();
     let Some(&(_, due)) = p.first() else { return false };
     let same: Vec<u64> = p.iter().filter(|(_, d)| *d == due).map(|(id, _)| *id).collect();
-    let i = self.choose(rng, same.len());
+    // a FIFO scheduler model also wakes equal deadlines in creation order;
+    // the any-order model may wake them in any order
+    let i = if self.timer_ties_fifo { 0 } else { self.choose(rng, same.len()) };
     vtime::fire(same[i])
   }
 
@@ -248,6 +252,7 @@ impl World {
     on_step: &mut dyn FnMut(&mut World, usize, &mut Rng),
   ) {
     let mut i = 0;
+    self.timer_ties_fifo = policy == Policy::Fifo;
     self.quiesce(policy, rng);
     loop {
       on_step(self, self.steps, rng);
@@ -297,6 +302,7 @@ impl World {
     on_step: &mut dyn FnMut(&mut World, usize, &mut Rng),
   ) {
     let mut i = 0;
+    self.timer_ties_fifo = policy == Policy::Fifo;
     loop {
       on_step(self, self.steps, rng);
       self.steps += 1;
@@ -354,10 +360,21 @@ impl World {
         }
         _ => {
           let due = vtime::next_due().unwrap();
+          if let Some(a) = acts.get(i) {
+            if a.t < due {
+              // the clock may not pass a scripted event that is still to come
+              vtime::set_now(a.t);
+              let a = a.act.clone();
+              self.log.mark(0, "act", i as i64);
+              self.act(&a);
+              i += 1;
+              continue;
+            }
+          }
           let span = [1u64, 5, 20, 120][self.choose(rng, 4)] * vtime::MS;
           let mut target = (due + span).min(horizon);
           if let Some(a) = acts.get(i) {
-            target = target.min(a.t.max(due));
+            target = target.min(a.t);
           }
           vtime::advance_to(target);
         }
